@@ -2,6 +2,7 @@
 from .model import const_val
 from .roles import M_KEY, M_VAL
 from .util import where
+from .fields import dot
 from . import k7
 
 
@@ -71,7 +72,7 @@ def check_class_slot(ctx, prog, R):
             if st["s"] == "assign" and st["lhs"]["l"] == 0 and not st["lhs"]["p"]:
                 rv = st["rhs"]
                 pl = rv["a"].get("pl") if rv["rv"] == "use" and rv["a"].get("k") in ("cp", "mv") else None
-                if pl and pl["l"] == 1 and len(pl["p"]) >= 2 and pl["p"][-1].startswith("idx:") and any(e.endswith(".free_list_offset") for e in pl["p"]):
+                if pl and pl["l"] == 1 and len(pl["p"]) >= 2 and pl["p"][-1].startswith("idx:") and any(e.endswith(dot(prog, "MGR.heads")) for e in pl["p"]):
                     rets.append((b, int(pl["p"][-1][4:])))
                 else:
                     other_rets.append(b)
@@ -82,13 +83,13 @@ def check_class_slot(ctx, prog, R):
     for b, L in rets:
         cj = cn.op({"k": "cp", "pl": {"l": L, "p": []}}, b)
         is_last = cj[0] == "bin" and cj[1] == "Sub" and cj[2][0] == "len" and cj[3] == ("c", 1) and \
-            cj[2][1][0] == "p" and cj[2][1][1] == 1 and any(e.endswith(".free_list_offset") for e in cj[2][1][2])
+            cj[2][1][0] == "p" and cj[2][1][1] == 1 and any(e.endswith(dot(prog, "MGR.heads")) for e in cj[2][1][2])
         guarded = False
         for (sb, t_true, t_false, c) in conds:
             if c[0] != "Eq" or t_true == t_false or not fn.dominates(t_true, b) or any(p_ != sb for p_ in fn.preds()[t_true]):
                 continue
             for x, y in ((c[1], c[2]), (c[2], c[1])):
-                if x[0] == "p" and x[1] == 1 and len(x[2]) == 2 and x[2][0].endswith(".size_ary") and x[2][1].startswith("idx:") \
+                if x[0] == "p" and x[1] == 1 and len(x[2]) == 2 and x[2][0].endswith(dot(prog, "MGR.sizes")) and x[2][1].startswith("idx:") \
                         and y[0] == "p" and y[1] == 2 and not y[2]:
                     cm = cn.op({"k": "cp", "pl": {"l": int(x[2][1][4:]), "p": []}}, sb)
                     if k7.same(cm, cj) and cj[0] != "?":
